@@ -272,6 +272,11 @@ def shards(tier):
     for size, mode in plans:
         for chunk in range(N_CHUNKS):
             out.append(["refine", size, mode, chunk, tier])
+    if tier == "quick":
+        # four hits of which three are fragments of one profile (a second domain of a profile starts, and something merges into it)
+        for mode in (False, True):
+            for chunk in range(N_CHUNKS):
+                out.append(["refine", "same3plus1", mode, chunk, tier])
     for chunk in range(8):
         out.append(["overlap", chunk])
         out.append(["filter", chunk])
@@ -282,10 +287,21 @@ def run_shard(shard):
     res = Result()
     if shard[0] == "refine":
         _, size, mode, chunk, tier = shard
-        items = menu(tier, size)
+        items = menu(tier, 3 if size == "same3plus1" else size)
         index = 0
-        for k in (range(1, size + 1) if size < 4 else (size,)):
-            for combo in itertools.combinations(items, k):
+        if size == "same3plus1":
+            def family():
+                for profile in ("A", "B"):
+                    same = [h for h in items if h[0] == profile]
+                    for trio in itertools.combinations(same, 3):
+                        for extra in items:
+                            if extra not in trio and (extra[0] != profile or items.index(extra) > items.index(trio[-1])):
+                                yield tuple(sorted(trio + (extra,), key=items.index))     # menu order, as in the other plans
+            combos = family()
+        else:
+            combos = (combo for k in (range(1, size + 1) if size < 4 else (size,)) for combo in itertools.combinations(items, k))
+        for _once in (0,):
+            for combo in combos:
                 index += 1
                 if index % N_CHUNKS != chunk:
                     continue
